@@ -1,6 +1,7 @@
 package main
 
 import (
+	"github.com/libp2p/go-libp2p/p2p/host/eventbus"
 	"bufio"
 	"bytes"
 	"context"
@@ -118,6 +119,7 @@ type Peer struct {
 	cache    *memCache
 	odb      orbitdb.OrbitDB
 	rank     int // rank of the identity's public key in byte order (= clock id order)
+	census   *busCensus // subscriptions open on this instance's event bus
 }
 
 // per-store hook accounting
@@ -273,9 +275,13 @@ func (w *World) startInstanceFresh(p *Peer) error {
 func (w *World) startInstance(p *Peer) error {
 	dir := fmt.Sprintf("mem-%d", p.idx)
 	id := w.net.ids[p.idx].String()
+	// the instance's bus is what NewOrbitDB would make by default, plus libp2p's own metrics hook: every
+	// subscription added to it and removed from it is counted
+	p.census = newBusCensus()
 	odb, err := orbitdb.NewOrbitDB(w.ctx, p.api, &orbitdb.NewOrbitDBOptions{
 		ID: &id, Directory: &dir, Keystore: p.ks, Cache: p.cache, Identity: p.identity,
 		PubSub: &switchPS{net: w.net, p: p.idx, api: p.api}, DirectChannelFactory: w.net.dcFactory(p.idx),
+		EventBus: eventbus.NewBus(eventbus.WithMetricsTracer(p.census)),
 	})
 	if err != nil {
 		return err
